@@ -13,7 +13,7 @@
    rewrite relation; the skip and squash lemmas by induction on the input), no axioms. *)
 From Coq Require Import List NArith.
 Import ListNotations.
-From PP Require Import Base Syntax Spec SpecSyn SpecMono SpecLaws SpecEquiv Opt OptProof OptSkip Interp InterpProof Gen GenProof OptPass OptPassProof OptPassInline OptPassCompose OptPassIdem OptPassSilent OptPassSkip OptPassHeads.
+From PP Require Import Base Syntax Spec SpecSyn SpecMono SpecLaws SpecEquiv Opt OptProof OptSkip Interp InterpProof Gen GenProof OptPass OptPassProof OptPassInline OptPassCompose OptPassIdem OptPassSilent OptPassSkip OptPassHeads OptMono.
 
 (* `req`: same constructor; on success the same tree and the same final position, stack and tags;
    failure with failure; undefined rule with undefined rule *)
@@ -188,6 +188,12 @@ Proof.
   split; [intros g'; apply skip_heads|intros g'; apply inline_builtin_pass_heads].
 Qed.
 
+(* the validator's verdict does not hinge on the fuel the driver gives it (200): whatever it accepts, it accepts
+   with any larger fuel *)
+Theorem C02_validator_monotone_in_fuel : forall g g' f,
+  ochk_grammar g g' f = true -> ochk_grammar g g' (S f) = true.
+Proof. exact ochk_grammar_mono. Qed.
+
 (* non-vacuity: the checker accepts a real optimizer output (unroll + squash + fused SKIP rule) and
    rejects the reordering of "a" | "ab" and a skip rewrite where trivia applies *)
 Definition R n sil k b := {| r_name := n; r_silent := sil; r_kind := k; r_body := b |}.
@@ -261,6 +267,7 @@ Print Assumptions C02_validated_optimization_preserves_meaning.
 Print Assumptions C02_modelled_passes_compose.
 Print Assumptions C02_unroll_pass_idempotent.
 Print Assumptions C02_modelled_passes_keep_rule_heads.
+Print Assumptions C02_validator_monotone_in_fuel.
 Print Assumptions C02_inline_builtin_pass_output_is_validated.
 Print Assumptions C02_inline_builtin_pass_preserves_meaning.
 Print Assumptions C02_unroll_pass_output_is_validated.
